@@ -158,6 +158,8 @@ def main(tier):
     rep.attempt(acct.check_count_resume, rep, mod, offc, 10)
     rep.attempt(c01.check_tmp_states, rep, 'default')
     rep.attempt(c02.check_rollback, rep)
+    import rollbackpair
+    rep.attempt(rollbackpair.check, rep, mod, c19.field_offsets('struct inflate_state', rollbackpair.IN_FIELDS + rollbackpair.OUT_FIELDS))
     rep.attempt(c19.check_resume, rep, mod)
     rep.attempt(check_state_handled, rep, mod)
     rep.attempt(check_tmp_twins, rep, mod)
